@@ -20,6 +20,7 @@ const (
 	mZero  // bytes in [lo, lo+n) are zero
 	mCopy  // memmove(dst, src, n) reading from prev
 	mMerge
+	mRegion // bytes in [lo, lo+n) come from the memory inner
 )
 
 type Mem struct {
@@ -33,6 +34,7 @@ type Mem struct {
 	src   *Term // copy source
 	conds []*Term
 	mems  []*Mem
+	inner *Mem
 	depth int
 }
 
@@ -42,6 +44,9 @@ type MemCtx struct {
 	cache map[[2]int]*Term
 	rom   func(a *Term) (*Term, bool) // read-only regions (string constants, imported tables)
 	liftDepth int
+	wcache    map[[3]int]*Term
+	relLo, relD *Term // while reading the inner memory of a region: its base and the offset of the address read
+	noWordLift bool
 	small     map[*Term][2]int64 // hint: term known to take few values (case-split in addresses)
 }
 
@@ -98,6 +103,14 @@ func (mc *MemCtx) Copy(m *Mem, dst, src, n *Term) *Mem {
 		return m
 	}
 	return mc.node(&Mem{kind: mCopy, prev: m, addr: dst, src: src, n: n})
+}
+
+func (mc *MemCtx) Region(m *Mem, lo, n *Term, inner *Mem) *Mem {
+	r := mc.node(&Mem{kind: mRegion, prev: m, addr: lo, n: n, inner: inner})
+	if inner.depth+1 > r.depth {
+		r.depth = inner.depth + 1
+	}
+	return r
 }
 
 func (mc *MemCtx) Merge(conds []*Term, mems []*Mem) *Mem {
@@ -183,6 +196,20 @@ func (mc *MemCtx) Read8(m *Mem, a *Term) *Term {
 		} else {
 			r = tb.Ite(in, mc.Read8(m.prev, tb.Add(m.src, off)), mc.Read8(m.prev, a))
 		}
+	case mRegion:
+		in := mc.inRange(a, m.addr, m.n)
+		switch {
+		case in.IsTrue():
+			r = mc.Read8(m.inner, a)
+		case in.IsFalse():
+			r = mc.Read8(m.prev, a)
+		default:
+			sl, sd := mc.relLo, mc.relD
+			mc.relLo, mc.relD = m.addr, tb.Sub(a, m.addr)
+			inner := mc.readInner(m, a)
+			mc.relLo, mc.relD = sl, sd
+			r = tb.Ite(in, inner, mc.Read8(m.prev, a))
+		}
 	case mMerge:
 		// find common ancestor shortcut: if all branches resolve to the same term, ite collapses
 		r = mc.Read8(m.mems[len(m.mems)-1], a)
@@ -196,8 +223,66 @@ func (mc *MemCtx) Read8(m *Mem, a *Term) *Term {
 	return r
 }
 
-// ReadLE reads a w-bit little-endian value.
+// readInner reads address a (somewhere inside region m) from the region's
+// inner memory: only the stores made on top of m.prev matter there, below them
+// the byte is that of m.prev. Uncached (depends on the relative context).
+func (mc *MemCtx) readInner(m *Mem, a *Term) *Term {
+	tb := mc.tb
+	var stores []*Mem
+	x := m.inner
+	for x != m.prev && x != nil && x.kind == mStore {
+		stores = append(stores, x)
+		x = x.prev
+	}
+	if x != m.prev {
+		return mc.Read8(m.inner, a)
+	}
+	r := mc.Read8(m.prev, a)
+	for i := len(stores) - 1; i >= 0; i-- {
+		s := stores[i]
+		eq := tb.Eq(a, s.addr)
+		if !eq.IsTrue() && !eq.IsFalse() {
+			if off := tb.Sub(s.addr, mc.relLo); off.IsConst() {
+				eq = tb.Eq(mc.relD, off)
+			}
+		}
+		switch {
+		case eq.IsTrue():
+			r = s.val
+		case eq.IsFalse():
+		default:
+			r = tb.Ite(eq, s.val, r)
+		}
+	}
+	return r
+}
+
+// ReadLE reads a w-bit little-endian value. Where the memory is an update of
+// an older memory by a region operation, the read is lifted to word level:
+// if the word does not overlap the updated region it is the word of the older
+// memory, so that values read before and after an unrelated update are the
+// same term under a single (linear) range condition.
 func (mc *MemCtx) ReadLE(m *Mem, a *Term, w int) *Term {
+	if w == 8 {
+		return mc.Read8(m, a)
+	}
+	if mc.wcache == nil {
+		mc.wcache = map[[3]int]*Term{}
+	}
+	key := [3]int{m.id, a.id, w}
+	if !a.bound {
+		if t, ok := mc.wcache[key]; ok {
+			return t
+		}
+	}
+	r := mc.readLE(m, a, w)
+	if !a.bound {
+		mc.wcache[key] = r
+	}
+	return r
+}
+
+func (mc *MemCtx) bytewise(m *Mem, a *Term, w int) *Term {
 	tb := mc.tb
 	var r *Term
 	for i := 0; i < w/8; i++ {
@@ -209,6 +294,57 @@ func (mc *MemCtx) ReadLE(m *Mem, a *Term, w int) *Term {
 		}
 	}
 	return r
+}
+
+func (mc *MemCtx) readLE(m *Mem, a *Term, w int) *Term {
+	tb := mc.tb
+	if mc.noWordLift || a.bound {
+		return mc.bytewise(m, a, w)
+	}
+	if c, ax, ay, ok := mc.splitIteAddr(a); ok {
+		// word-level lifting of an if-then-else address
+		mc.liftDepth++
+		r := tb.Ite(c, mc.ReadLE(m, ax, w), mc.ReadLE(m, ay, w))
+		mc.liftDepth--
+		return r
+	}
+	nb := uint64(w / 8)
+	lift := func(ov *Term) *Term {
+		switch {
+		case ov.IsFalse():
+			return mc.ReadLE(m.prev, a, w)
+		case ov.IsTrue():
+			return mc.bytewise(m, a, w)
+		}
+		bw := mc.bytewise(m, a, w)
+		old := mc.ReadLE(m.prev, a, w)
+		if bw == old {
+			return old
+		}
+		return tb.Ite(ov, bw, old)
+	}
+	switch m.kind {
+	case mStore:
+		// the stored byte lies in [a, a+nb)
+		return lift(tb.Ult(tb.Sub(m.addr, a), tb.ConstU(nb, 64)))
+	case mHavoc, mZero, mRegion, mCopy:
+		if m.n == nil {
+			return mc.bytewise(m, a, w)
+		}
+		// [a, a+nb) overlaps [lo, lo+n)  <=>  a - lo + nb - 1 < n + nb - 1 (no wrap-around of regions)
+		ov := tb.Ult(tb.Add(tb.Sub(a, m.addr), tb.ConstU(nb-1, 64)), tb.Add(m.n, tb.ConstU(nb-1, 64)))
+		if !m.n.IsConst() {
+			ov = tb.Or(ov, tb.Ult(tb.ConstU(1<<62, 64), m.n)) // absurd lengths: no lifting
+		}
+		return lift(ov)
+	case mMerge:
+		r := mc.ReadLE(m.mems[len(m.mems)-1], a, w)
+		for i := len(m.mems) - 2; i >= 0; i-- {
+			r = tb.Ite(m.conds[i], mc.ReadLE(m.mems[i], a, w), r)
+		}
+		return r
+	}
+	return mc.bytewise(m, a, w)
 }
 
 // iteLeaves counts the leaves of an ite tree (1 for a non-ite term).
